@@ -183,3 +183,105 @@ theorem C02_invalid_is_rule_verdict {P : Program} {s s' : St} {k : Key} {v : Val
   · cases h
 
 end LLBuild.Engine
+
+namespace LLBuild.Engine
+
+/-- What `computedAt` means (the quantity reason 3 compares against): within an engine's lifetime it
+changes only when a task reports a value that differs from the stored one, or forces the change, and
+it then becomes the current epoch.  (Reloading from the database — `restart`, `crash`, `wipe` —
+replaces the whole in-memory result.) -/
+theorem C02_computedAt_changes_only_on_change {P : Program} {s s' : St} {e : Event} {k : Key}
+    (h : step P s e = some s') (hc : (s'.mem.res k).computedAt ≠ (s.mem.res k).computedAt) :
+    e = .restart ∨ e = .crash ∨ e = .wipe ∨
+    ∃ v f, e = .complete k v f ∧ (f = true ∨ v ≠ (s.mem.res k).value) ∧ (s'.mem.res k).computedAt = s.epoch := by
+  cases e <;> simp only [step] at h
+  case restart => left; rfl
+  case crash => right; left; rfl
+  case wipe => right; right; left; rfl
+  case complete k' v f =>
+    split at h
+    · cases h
+      by_cases e : k = k'
+      · subst e
+        right; right; right
+        refine ⟨v, f, rfl, ?_⟩
+        simp only [setRes_res_same] at hc ⊢
+        split at hc
+        · exact absurd rfl hc
+        · rename_i hcc
+          simp only [Bool.and_eq_true, Bool.not_eq_eq_eq_not, Bool.not_true, beq_iff_eq, not_and] at hcc
+          have hneg : ¬ ((!f && v == (s.mem.res k).value) = true) := by
+            simp only [Bool.and_eq_true, Bool.not_eq_eq_eq_not, Bool.not_true, beq_iff_eq, not_and]; exact hcc
+          refine ⟨?_, by rw [if_neg hneg]⟩
+          cases f with
+          | true => left; rfl
+          | false => right; exact hcc rfl
+      · rw [setRes_res_other _ _ _ _ e] at hc; exact absurd rfl hc
+    · cases h
+  case scanning k' =>
+    split at h
+    · cases h
+      by_cases e : k = k'
+      · subst e; simp at hc
+      · rw [setRes_res_other _ _ _ _ e] at hc; exact absurd rfl hc
+    · cases h
+  case upToDate k' =>
+    split at h
+    · cases h
+      by_cases e : k = k'
+      · subst e; simp at hc
+      · rw [setRes_res_other _ _ _ _ e] at hc; exact absurd rfl hc
+    · cases h
+  case create k' =>
+    split at h
+    · cases h
+      by_cases e : k = k'
+      · subst e; simp at hc
+      · rw [setRes_res_other _ _ _ _ e] at hc; exact absurd rfl hc
+    · cases h
+  case finished k' row =>
+    split at h
+    · cases h
+      by_cases e : k = k'
+      · subst e; simp [upd] at hc
+      · simp [upd, e] at hc
+    · cases h
+  case ret v =>
+    split at h
+    · cases h
+    · split at h
+      · cases h
+      · split at h
+        · cases h; exact absurd rfl hc
+        · split at h
+          · cases h
+            simp only at hc
+            split at hc <;> exact absurd rfl hc
+          · cases h
+  case tail live late =>
+    split at h
+    · cases h
+      simp only at hc
+      split at hc <;> exact absurd rfl hc
+    · cases h
+  case provide k' id key v reqs =>
+    split at h
+    · split at h
+      · cases h
+      · split at h
+        · cases h; exact absurd rfl hc
+        · cases h
+    · cases h
+  case cycle ks =>
+    split at h
+    · split at h
+      · cases h; exact absurd rfl hc
+      · cases h
+    · cases h
+  all_goals first
+    | (cases h; exact absurd rfl hc)
+    | (split at h
+       · cases h; exact absurd rfl hc
+       · cases h)
+
+end LLBuild.Engine
